@@ -555,6 +555,9 @@ func (p *Prog) symCall(s *Sym, x *ssa.Call) {
 	s.Kind = "call"
 	s.Call = x
 	s.Name = calleeName(c)
+	if g := c.StaticCallee(); g != nil && len(c.Args) == 2 && p.containsHelper(g) {
+		s.Name = "funk.Contains" // a repository membership loop is read as the library call it replaces
+	}
 	if _, ok := c.Value.(*ssa.Builtin); ok {
 		s.Kind = "builtin"
 	}
@@ -956,4 +959,27 @@ func (p *Prog) addrEscapes(owner, name string) []ssa.Instruction {
 		}
 	}
 	return out
+}
+
+// containsHelper memoises isContainsHelper (and breaks the recursion through p.Sym of the helper's own body).
+func (p *Prog) containsHelper(f *ssa.Function) bool {
+	if f.Signature.Params().Len() != 2 || f.Signature.Results().Len() != 1 || f.Blocks == nil {
+		return false
+	}
+	if p.containsMemo == nil {
+		p.containsMemo = map[*ssa.Function]int{}
+	}
+	switch p.containsMemo[f] {
+	case 1:
+		return true
+	case 2, 3:
+		return false
+	}
+	p.containsMemo[f] = 3 // in progress
+	if isContainsHelper(p, f) {
+		p.containsMemo[f] = 1
+		return true
+	}
+	p.containsMemo[f] = 2
+	return false
 }
